@@ -41,8 +41,13 @@ PinClass(L) == IF FixedSites = {} THEN "na"
 OtherPinned(L) == \E i \in SitesOf(M) \ FixedSites : IsIdentityRow(M, L, i)
 
 \* what every observation of the operators carries
+\* rowsexact: the identity rows are exactly the rows of the sites the documented API names as terminal sites
+\* (Device.terminal_info(); the sites handed to MeshOperators on the exact instances) - checked alongside the
+\* geometric classification, independently of it
+RowsExactlyOnPinned(L) == \A i \in SitesOf(M) : IsIdentityRow(M, L, i) = (i \in BuildFixed)
 OpsObs(L, G) == /\ Ev.pinrows = PinClass(L)
                 /\ Ev.other = OtherPinned(L)
+                /\ Ev.rowsexact = RowsExactlyOnPinned(L)
 
 (* ---- level "ops": one event per set_link_exponents call ---- *)
 TOpsCall ==
@@ -80,6 +85,7 @@ TInduced == /\ IsEv("induced")
 
 TFinish == /\ IsEv("finish") /\ Finish
            /\ Ev.term = tv
+           /\ Ev.term_api = tv             \* the same on the sites Device.terminal_info() names
            /\ (~cfg.scr => Ev.ops_applied = (linkQ = QOfPot(M, curA, 0)))
 
 \* the run is over: what the saved frames and the whole history show
